@@ -356,7 +356,7 @@ verif_harness! {
     stubs: [(crate::mix, t256::stub_mix), (crate::inv_mix, t256::stub_inv_mix)],
     prop: |inp| { t256::bytes_dec(inp) }
 }
-//@ harness name=tf256_rt_ed prop=C01,C20 tier=quick bits=5120 stub=1 est=120 desc="W: Threefish256 decrypt_block_u64(encrypt_block_u64(b)) == b on an ARBITRARY subkey table (any key, any tweak), all blocks; mix / inv_mix uninterpreted mutual inverses (leaf lemma)"
+//@ harness name=tf256_rt_ed prop=C01,C20 tier=quick bits=5120 stub=1 est=125 need=5 desc="W: Threefish256 decrypt_block_u64(encrypt_block_u64(b)) == b on an ARBITRARY subkey table (any key, any tweak), all blocks; mix / inv_mix uninterpreted mutual inverses (leaf lemma)"
 verif_harness! {
     name: tf256_rt_ed,
     bytes: 640,
@@ -364,7 +364,7 @@ verif_harness! {
     stubs: [(crate::mix, t256::stub_mix), (crate::inv_mix, t256::stub_inv_mix)],
     prop: |inp| { t256::rt_ed(inp) }
 }
-//@ harness name=tf256_rt_de prop=C01,C20 tier=quick bits=5120 stub=1 est=109 desc="W: Threefish256 encrypt_block_u64(decrypt_block_u64(b)) == b on an ARBITRARY subkey table, all blocks"
+//@ harness name=tf256_rt_de prop=C01,C20 tier=quick bits=5120 stub=1 est=140 need=5 desc="W: Threefish256 encrypt_block_u64(decrypt_block_u64(b)) == b on an ARBITRARY subkey table, all blocks"
 verif_harness! {
     name: tf256_rt_de,
     bytes: 640,
@@ -372,7 +372,7 @@ verif_harness! {
     stubs: [(crate::mix, t256::stub_mix), (crate::inv_mix, t256::stub_inv_mix)],
     prop: |inp| { t256::rt_de(inp) }
 }
-//@ harness name=tf256_rt_bytes prop=C01,C20 tier=quick bits=5120 stub=1 est=115 desc="W: Threefish256 decrypt_block(encrypt_block(b)) == b through the byte entry points, ARBITRARY subkey table, all blocks"
+//@ harness name=tf256_rt_bytes prop=C01,C20 tier=thorough bits=5120 stub=1 est=130 need=6 desc="W: Threefish256 decrypt_block(encrypt_block(b)) == b through the byte entry points, ARBITRARY subkey table, all blocks"
 verif_harness! {
     name: tf256_rt_bytes,
     bytes: 640,
@@ -430,7 +430,7 @@ verif_harness! {
     stubs: [(crate::mix, t512::stub_mix), (crate::inv_mix, t512::stub_inv_mix)],
     prop: |inp| { t512::rt_ed(inp) }
 }
-//@ harness name=tf512_rt_de prop=C01,C20 tier=quick bits=10240 stub=1 est=300 need=10 desc="W: Threefish512 encrypt_block_u64(decrypt_block_u64(b)) == b on an ARBITRARY subkey table, all blocks"
+//@ harness name=tf512_rt_de prop=C01,C20 tier=thorough bits=10240 stub=1 est=230 need=11 desc="W: Threefish512 encrypt_block_u64(decrypt_block_u64(b)) == b on an ARBITRARY subkey table, all blocks"
 verif_harness! {
     name: tf512_rt_de,
     bytes: 1280,
